@@ -21,10 +21,10 @@ DEPTH_LIMIT = 150
 
 # most specific component first: the first differing one names the mechanism
 PRIORITY = [
+    "n-integrals",
     "metadata",
     "subdomain_data",
     "integral-header",
-    "n-integrals",
     "integrand",
     "structure",
     "container",
@@ -370,14 +370,17 @@ class Monitor:
             main = names[0]
             key = f"C27/{op}/{main}"
             lb, la = _get(before, path), _get(after, path)
-            vb, va = lb["comp"].get(main), la["comp"].get(main)
+            if main == "container":
+                vb, va = (lb["kind"], lb.get("container")), (la["kind"], la.get("container"))
+            else:
+                vb, va = lb["comp"].get(main), la["comp"].get(main)
             detail = {
                 "operation": op,
                 "object": where + path,
                 "object_kind": kind,
                 "all_differing_components": names,
                 "first_difference": first_difference(vb, va)[:1500],
-                "repr_before": str(lb["comp"].get("repr"))[:600],
+                "repr_before": str(lb.get("comp", {}).get("repr"))[:600],
                 "history": list(self.trace),
                 "call": what,
             }
